@@ -129,51 +129,51 @@ Proof. intros H. unfold str_match. apply sm_yn; [exact H|lia]. Qed.
 
 (* ---------- modifier chains ---------- *)
 
-Lemma apply_mods_app a b st :
-  apply_mods (a ++ b) st = match apply_mods a st with Some st' => apply_mods b st' | None => None end.
+Lemma apply_mods_app e a b st :
+  apply_mods e (a ++ b) st = match apply_mods e a st with Some st' => apply_mods e b st' | None => None end.
 Proof.
   revert st; induction a as [|m a IH]; intros st; simpl; [reflexivity|].
-  destruct (apply_mod m st); [apply IH|reflexivity].
+  destruct (apply_mod e m st); [apply IH|reflexivity].
 Qed.
 
 (* a regular (defined) variable stays regular *)
-Lemma apply_mods_regular ms : forall s d r, apply_mods ms (DRegular, s) = Some (d, r) -> d = DRegular.
+Lemma apply_mods_regular e ms : forall s d r, apply_mods e ms (DRegular, s) = Some (d, r) -> d = DRegular.
 Proof.
   induction ms as [|m ms IH]; intros s d r H; simpl in H; [congruence|].
-  destruct m; simpl in H; try discriminate; eapply IH; exact H.
+  destruct m; simpl in H; try destruct (expand_pat e pat); try discriminate; eapply IH; exact H.
 Qed.
 
 (* the string a chain computes does not depend on DUndef vs DDefined *)
-Lemma apply_mods_undef_defined ms : forall s,
-  match apply_mods ms (DUndef, s), apply_mods ms (DDefined, s) with
+Lemma apply_mods_undef_defined e ms : forall s,
+  match apply_mods e ms (DUndef, s), apply_mods e ms (DDefined, s) with
   | Some (_, r1), Some (d2, r2) => r1 = r2 /\ d2 = DDefined
   | None, None => True
   | _, _ => False
   end.
 Proof.
   induction ms as [|m ms IH]; intros s; simpl; [split; reflexivity|].
-  destruct m; simpl; try exact I; try apply IH.
+  destruct m; simpl; try destruct (expand_pat e pat); try exact I; try apply IH.
   (* ModU: both become (DDefined, dflt) *)
-  destruct (apply_mods ms (DDefined, dflt)) as [[d r]|] eqn:E; [|exact I].
+  destruct (apply_mods e ms (DDefined, dflt)) as [[d r]|] eqn:E; [|exact I].
   split; [reflexivity|].
-  specialize (IH dflt). rewrite E in IH. destruct (apply_mods ms (DUndef, dflt)) as [[? ?]|]; tauto.
+  specialize (IH dflt). rewrite E in IH. destruct (apply_mods e ms (DUndef, dflt)) as [[? ?]|]; tauto.
 Qed.
 
 (* a chain that contains :U never ends undefined *)
 Definition is_ModU (m : modifier) : bool := match m with ModU _ => true | _ => false end.
 
-Lemma apply_mods_not_undef_from_defined ms : forall s d r,
-  apply_mods ms (DDefined, s) = Some (d, r) -> d = DDefined.
+Lemma apply_mods_not_undef_from_defined e ms : forall s d r,
+  apply_mods e ms (DDefined, s) = Some (d, r) -> d = DDefined.
 Proof.
   induction ms as [|m ms IH]; intros s d r H; simpl in H; [congruence|].
-  destruct m; simpl in H; try discriminate; eapply IH; exact H.
+  destruct m; simpl in H; try destruct (expand_pat e pat); try discriminate; eapply IH; exact H.
 Qed.
 
-Lemma apply_mods_has_U ms : existsb is_ModU ms = true -> forall d0 s d r,
-  apply_mods ms (d0, s) = Some (d, r) -> d <> DUndef.
+Lemma apply_mods_has_U e ms : existsb is_ModU ms = true -> forall d0 s d r,
+  apply_mods e ms (d0, s) = Some (d, r) -> d <> DUndef.
 Proof.
   induction ms as [|m ms IH]; intros Hex d0 s d r H; simpl in *; [discriminate|].
-  destruct m; simpl in *; try discriminate; try (eapply IH; eassumption).
+  destruct m; simpl in *; try destruct (expand_pat e pat); try discriminate; try (eapply IH; eassumption).
   destruct d0.
   - apply apply_mods_regular in H. congruence.
   - apply apply_mods_not_undef_from_defined in H. congruence.
@@ -187,9 +187,40 @@ Lemma eval_expr_with_U e v ms d s :
 Proof.
   unfold eval_expr. destruct (e v) as [x|]; simpl; intros H.
   - exists d. split; [exact H|]. apply apply_mods_regular in H. congruence.
-  - pose proof (apply_mods_undef_defined ms []) as P. unfold str in *. rewrite H in P.
-    destruct (apply_mods ms (DDefined, [])) as [[d2 r2]|]; [|contradiction].
+  - pose proof (apply_mods_undef_defined e ms []) as P. unfold str in *. rewrite H in P.
+    destruct (apply_mods e ms (DDefined, [])) as [[d2 r2]|]; [|contradiction].
     destruct P as [-> ->]. exists DDefined. split; [reflexivity|discriminate].
+Qed.
+
+(* ---------- patterns without nested references ---------- *)
+
+Definition no_dollar (p : str) : bool := negb (existsb (N.eqb 36) p).
+
+Lemma no_dollar_cons c p : no_dollar (c :: p) = true <-> c <> 36 /\ no_dollar p = true.
+Proof.
+  unfold no_dollar. cbn [existsb]. destruct (N.eqb_spec 36 c) as [E|E]; cbn [orb negb].
+  - split; [discriminate|]. intros [H _]. congruence.
+  - split; [intros H; split; [congruence|exact H]|intros [_ H]; exact H].
+Qed.
+
+Lemma parse_pat_literal p : no_dollar p = true ->
+  forall fuel, (length p < fuel)%nat -> parse_pat fuel p = Some (map PPByte p).
+Proof.
+  induction p as [|c p IH]; intros H fuel Hf.
+  - destruct fuel; [simpl in Hf; lia|reflexivity].
+  - apply no_dollar_cons in H as [Hc Hp]. destruct fuel as [|f]; [simpl in Hf; lia|]. simpl in Hf.
+    cbn [parse_pat]. destruct (N.eqb_spec c 36); [congruence|].
+    rewrite IH by (assumption || lia). reflexivity.
+Qed.
+
+Lemma expand_parts_literal e p : expand_parts e (map PPByte p) = p.
+Proof. induction p as [|c p IH]; [reflexivity|]. cbn [map expand_parts]. rewrite IH. reflexivity. Qed.
+
+(* a pattern without '$' is its own expansion, whatever the variables are *)
+Lemma expand_pat_literal e p : no_dollar p = true -> expand_pat e p = Some p.
+Proof.
+  intros H. unfold expand_pat. rewrite parse_pat_literal by (assumption || lia).
+  cbn [option_map]. rewrite expand_parts_literal. reflexivity.
 Qed.
 
 (* ---------- truth values ---------- *)
